@@ -103,6 +103,11 @@ def _create_name_annotation(name: str) -> str:
     return f'@PythonName("{name}")'
 
 
+def _replace_keywords_in_path(path: str) -> str:
+    """Back-quote every segment of a dotted path that is a Safe-DS keyword (e.g. the module `enum`)."""
+    return ".".join(_replace_if_safeds_keyword(part) for part in path.split("."))
+
+
 def _replace_if_safeds_keyword(keyword: str) -> str:
     if keyword in {
         "_",
